@@ -87,8 +87,10 @@ def kclasses(ts):
         out["star-before-escape:undermatch"] = {"under"}
     # (3) after '**' the translator stays in "globstar mode" until the next literal other than
     #     '/', '*', an escaped backslash or an escaped asterisk: '/' is swallowed and single asterisks are dropped
+    #     (a single '*' right after an escaped asterisk is also taken for '**', finding 1)
     for i, t in enumerate(ts):
-        if t != ("gs",):
+        pseudo = t == ("st",) and i > 0 and ts[i - 1][0] == "lit" and ts[i - 1][1] == "*" and ts[i - 1][2]
+        if t != ("gs",) and not pseudo:
             continue
         j = i + 1
         seen_bs = False
